@@ -616,28 +616,7 @@ def _family(locs):
     return out
 
 
-def _may_hit_known(case):
-    """a delete after an interrupted save at the same location, or a delete / failing save at the bare file
-    name: where the recorded findings S24 / S25 live"""
-    crashed = set()
-    for op in case["ops"]:
-        if op[0] == "save" and op[6] is not None:
-            crashed.add(op[1])
-        if op[0] == "save" and op[1] == "flat":
-            return True
-        if op[0] == "delete" and (op[1] in crashed or op[1] == "flat"):
-            return True
-        if op[0] == "ctor" and op[2] and "default" in crashed:
-            return True
-    return False
-
-
 def generate(ctx):
-    cases = _generate(ctx)
-    return [c for c in cases if not _may_hit_known(c)] + [c for c in cases if _may_hit_known(c)]
-
-
-def _generate(ctx):
     rng = ctx.rng
     fam = _family(["default"] if ctx.quick else LOCS)
     if ctx.quick:
@@ -672,7 +651,7 @@ def _want(e):
 
 
 def _judge(case, obs):
-    """all violations of the property text in this history: [(signature, message, op index, known id)]"""
+    """all violations of the property text in this history: [(signature, message, op index, finding id or None)]"""
     case = _tolist(case)
     bad = []
     if (not isinstance(obs, list) or len(obs) != len(case["ops"]) or (obs and obs[0] == "HARNESS-EXC")
@@ -772,16 +751,10 @@ def _judge_delete(uni, loc, rows, snap, prev_snap, res, where, idx):
     left = [j for j in range(4) if rows[loc][j] != 0]
     found, user = _dir_files(uni, snap, d)
     if res != "ok":
-        root_empty = d is None and not found and not user and not any(snap[1])
-        bad.append(("delete-raised", f"delete-raised: {where} raised {res}", idx,
-                    "S25-rmdir-cwd" if root_empty and res == "OSError" else None))
+        bad.append(("delete-raised", f"delete-raised: {where} raised {res}", idx, None))
     if left:
-        only_tmp = all(j >= 2 for j in left)
-        before = dict(zip(uni[0], prev_snap[0]))[loc] if prev_snap is not None else [0] * 6
-        stale = only_tmp and all(before[j] != 0 for j in left)
         bad.append(("delete-leaves-files", f"delete-leaves-files: {where} leaves "
-                    f"{[['.pckl', '.cpckl', '.pckl.tmp', '.cpckl.tmp'][j] for j in left]} of {loc} behind", idx,
-                    "S24-stale-tmp-survives-delete" if stale else None))
+                    f"{[['.pckl', '.cpckl', '.pckl.tmp', '.cpckl.tmp'][j] for j in left]} of {loc} behind", idx, None))
     if d is not None and not found and not user and snap[1][uni[1].index(d)]:
         bad.append(("delete-leaves-empty-dir", f"delete-leaves-empty-dir: {where} leaves the emptied directory {d}", idx, None))
     return bad
@@ -796,10 +769,7 @@ def oracle(case, obs):
 
 
 def known(case, obs, verdict):
-    bad = _judge(case, obs)
-    if not bad or any(b[3] is None for b in bad):
-        return None
-    return bad[0][3]
+    return None        # no open finding: S16, S24, S25 are fixed in /repo (their witnesses live in corpus/C19)
 
 
 def nontrivial(case, obs):
